@@ -100,14 +100,17 @@ def x86JmpAbs (s : State) (sh : JShape) (opt : FormOpt) (target : BitVec 64) : S
     let re : Reloc := { type := .absToRel, fmt := fmtS 4, regionSize := 0, srcSec := s.cur, tgtSec := none,
                         srcOff := s.curOff, payload := target }
     if sh.op32 ≠ [] then
-      let useTab := s.arch = .x64 ∧ sh.jmpOrCall
-      let rex : Bytes := if useTab then [0x40#8] else []
-      let s0 := if useTab then addAddress s target else s
-      let lead := sh.pre ++ rex ++ sh.op32
-      let re1 := { re with type := if useTab then .x64AddressEntry else .absToRel,
-                           fmt := { fmtS 4 with valueOffset := lead.length }, regionSize := lead.length + 4 }
-      let (s1, _) := newReloc s0 re1
-      (s1.emit (lead ++ zeros 4), .ok)
+      if s.arch = .x64 ∧ sh.jmpOrCall then
+        -- 64-bit jmp/call: bare REX so that the relocator can rewrite to FF /2|/4, target registered in the address table
+        let lead := sh.pre ++ [0x40#8] ++ sh.op32
+        let re1 := { re with type := .x64AddressEntry, fmt := { fmtS 4 with valueOffset := lead.length }, regionSize := lead.length + 4 }
+        let (s1, _) := newReloc (addAddress s target) re1
+        (s1.emit (lead ++ zeros 4), .ok)
+      else
+        let lead := sh.pre ++ sh.op32
+        let re1 := { re with fmt := { fmtS 4 with valueOffset := lead.length }, regionSize := lead.length + 4 }
+        let (s1, _) := newReloc s re1
+        (s1.emit (lead ++ zeros 4), .ok)
     else
       match sh.op8 with
       | some o8 =>
